@@ -631,6 +631,64 @@ def c_from_bool(eng, st, fr, f, args, site):
     return None
 
 
+@contract(r"^(std|core)::num::<impl [ui](8|16|32|64|128|size)>::(count_ones|count_zeros|trailing_zeros|leading_zeros|trailing_ones|leading_ones)$")
+def c_bit_counts(eng, st, fr, f, args, site):
+    """Bit counting on a value whose bits are known up to a few input bits: decided per assignment of those bits, the
+    way a chain of `if x & FLAG != 0` would (same refinement, same partition rule)."""
+    import itertools
+    v = force(eng, st, args[0])
+    if not isinstance(v, Int):
+        return None
+    op = f["path"].split("::")[-1]
+    bits = eng.bits_of(st, v)
+    if bits is None and v.lin.is_const():
+        c = v.lin.c & ((1 << v.w) - 1)
+        bits = tuple((c >> i) & 1 for i in range(v.w))
+    def bounded(hi):
+        return [(st, eng.fresh_int("bitcnt", 32, False, 0, hi))]
+
+    if bits is None or any(x is None for x in bits):
+        return bounded(v.w)
+    bits = tuple(bits[:v.w]) + (0,) * max(0, v.w - len(bits))
+    unk = [i for i, x in enumerate(bits) if x not in (0, 1)]
+    if len(unk) > 4 or any(not (isinstance(bits[i], tuple) and bits[i][0] in ("b", "nb")) for i in unk):
+        return bounded(sum(1 for x in bits if x != 0) if op == "count_ones" else v.w)
+
+    def count(bs):
+        n = len(bs)
+        if op == "count_ones":
+            return sum(bs)
+        if op == "count_zeros":
+            return n - sum(bs)
+        seq = bs if op.startswith("trailing") else tuple(reversed(bs))
+        want = 1 if op.endswith("ones") else 0
+        k = 0
+        for x in seq:
+            if x != want:
+                break
+            k += 1
+        return k
+
+    outs = []
+    site_b = site.get("block") if isinstance(site, dict) else None
+    for combo in itertools.product((0, 1), repeat=len(unk)):
+        ns = st.fork() if unk else st
+        bs = list(bits)
+        try:
+            for i, val in zip(unk, combo):
+                at = bits[i]
+                real = val if at[0] == "b" else 1 - val
+                ns.set_bit(at[1], at[2], real)
+                ki = ("bit", at[1], at[2], real)
+                if ki not in ns.key and eng._want_partition(fr, site_b, "cond", ki):
+                    ns.key = ns.key + (ki,)
+                bs[i] = val
+        except Dead:
+            continue
+        outs.append((ns, int_const(count(tuple(bs)), 32, False)))
+    return outs or None
+
+
 @contract(r"^(std|core)::convert::num::<impl (std|core)::convert::From<[ui]\d+> for [ui](\d+|size)>::from$")
 def c_from_int(eng, st, fr, f, args, site):
     v = args[0]
